@@ -677,3 +677,46 @@ def _param_name(B, base, projs):
     if base[0] in ('local', 'arg'):
         return B.local_name(base[1])
     return None
+
+
+_run_before_owner_rule = run
+
+
+def run(ctx):
+    _run_before_owner_rule(ctx)
+    registry_owners(ctx, 'C18.6-registry-changed-by-its-owners')
+
+
+def registry_owners(ctx, rule):
+    """who may take a process or a name out of the registry, and who may send exit notices"""
+    P = ctx.P
+    ctx.rule(rule, 'a process leaves the registry, and its exit notices go out, from exactly one place: the end of its own task; a name is given up only through the unregister operation. '
+             'No sending or routing function does either on the strength of a failed delivery (by the time its await returns the name may belong to someone else, '
+             'and the process\'s own task has sent - or will send - the notices itself)', floor=2)
+    # confirmed by reading: the only callers on the pinned tree
+    OWNERS = {
+        'edp_node::registry::ProcessRegistry::remove': ('edp_node::process::',),
+        'edp_node::process::propagate_exit_signals': ('edp_node::process::',),
+        'edp_node::registry::ProcessRegistry::unregister': ('edp_node::node::Node::unregister', 'edp_node::process::', 'edp_node::registry::'),
+    }
+    n = 0
+    for q in sorted(ctx.F.bodies):
+        if not q.startswith('edp_node::') or '::tests::' in q or ctx.F.bodies[q]['kind'] not in ('Fn', 'AssocFn', 'Closure'):
+            continue
+        DB = P.B(q)
+        host = q.split('::{')[0]
+        for bb, t in DB.calls():
+            if bb not in DB.live_blocks():
+                continue
+            for nm in callee_names(t):
+                if nm in OWNERS:
+                    n += 1
+                    short = nm.rsplit('::', 1)[1]
+                    if host.startswith(OWNERS[nm]) or host == nm:
+                        ctx.ok(rule, '%s<-%s' % (short, host.replace('edp_node::', '')), 'called by its owner', ctx.where(DB, bb))
+                    else:
+                        ctx.bad(rule, '%s<-%s' % (short, host.replace('edp_node::', '')), '%s calls %s: only %s may - a delivery that failed says nothing about who holds the name or the pid now, '
+                                'and the process\'s own task does the same work once' % (host.replace('edp_node::', ''), short, ' / '.join(o.replace('edp_node::', '').rstrip(':') for o in OWNERS[nm])),
+                                ctx.where(DB, bb), key='WHO:%s:calls-%s' % (host, short))
+    if n == 0:
+        ctx.ok(rule, 'none', 'nothing removes from the registry')
